@@ -356,7 +356,7 @@ class CallMixin(ExprMixin):
                 se.trace.append(f"L{line}:{c.key} raises {exc}")
                 self.writeback(modified_params, post_env, argkey, arg_nodes, recv_node, se, node)
                 yield Raise(exc, line, f"raised by {c.key}"), se
-        if self.anon_raise_enabled() and c.anon_raises:
+        if self.anon_raise_enabled() and not c.pure:
             se = post.clone()
             ev = SpecEval(self, se, pre, post_env, facts, c.defs, env)
             for t in (c.raises.get("AnyException", {}) or {}).get("ensures", []):
@@ -402,7 +402,8 @@ class CallMixin(ExprMixin):
         yield result, post
 
     def anon_raise_enabled(self):
-        return bool(self.contract.crash_inv)
+        """C11: in functions with a crash invariant (or an AnyException clause) every call may raise."""
+        return bool(self.contract.crash_inv) or "AnyException" in self.contract.raises
 
     def havoc_target(self, m, env, post_env, st, c, modified_params):
         if m.startswith("ghost."):
@@ -472,7 +473,10 @@ class CallMixin(ExprMixin):
         inner.locals = dict(env)
         inner.fresh_locals = set()
         saved_line = self.cur_line
-        for flow, s in self.exec_block(body, inner):
+        self.inlining = getattr(self, "inlining", 0) + 1
+        results = list(self.exec_block(body, inner))
+        self.inlining -= 1
+        for flow, s in results:
             loc = s.locals
             s.locals = dict(saved_locals)
             s.fresh_locals = set(saved_fresh)
